@@ -12,7 +12,7 @@ From Coq Require Import String Ascii List Bool ZArith NArith.
 Import ListNotations.
 From ACH Require Import Bytes JsonCodec JsonCodecFacts JsonSurvive JsonPostTable Layout LayoutOk FileStruct JsonFile JsonFileFacts JsonFileCurrent.
 From ACH Require Import JsonTags JsonPost Offsets OffsetTable Layouts RecValid RecValidFacts RecRules C07Obl C07FileObl.
-From ACH Require Import JsonDefaultsTable JsonDefaults JsonFull JsonFullFacts C07FullObl.
+From ACH Require Import JsonDefaultsTable JsonDefaults JsonFull JsonFullFacts JsonKeepFacts C07FullObl.
 Local Open Scope string_scope.
 Local Open Scope list_scope.
 
@@ -131,41 +131,54 @@ Print Assumptions C07_post_ready_adv.
 
 (* ------------------------------------------------------------ the round trip *)
 
+(* For ANY type tree: a selector that names no (struct, field) of the tree imposes no condition on typed values. *)
+Theorem C07_quiet_selector : forall sel t,
+  wf t = true -> sel_quiet sel t = true -> forall cur v, typed t cur = true -> typed t v = true -> safe_sel sel t cur v = true.
+Proof. exact safe_quiet. Qed.
+Print Assumptions C07_quiet_selector.
+
+(* Current source: the kept excused fields hold their decode-time values ([keep_ok], the hypothesis of
+   C07_roundtrip_partial) as soon as the file header passes the regenerated rules of FileHeader.Validate (they pin
+   recordSize / blockingFactor / formatCode and reject an empty FileIDModifier), priorityCode is the package's literal,
+   and no Addenda98 record carries iatCorrectedData. *)
+Theorem C07_keep_from_valid : forall fhv bhv fv v,
+  typed T_File v = true -> in_domain v = true -> valid fhv bhv fv v = true -> a98_clean v = true -> keep_ok v = true.
+Proof. exact keep_ok_of_valid. Qed.
+Print Assumptions C07_keep_from_valid.
+
 (* Current source, any validators.  For every typed File value that is
      in the domain  (options stored through File.SetValidation: the header's copy is the file's; priorityCode is the one
                      literal the package assigns; the five timestamp fields in their NACHA forms),
-     valid          (as far as the round trip needs: file header accepted by the regenerated rules, batch headers
-                     present, addenda type codes, ADV categories, Create's preconditions),
+     valid          (as far as the round trip needs: file header accepted by the regenerated rules of
+                     FileHeader.Validate, batch headers present, addenda type codes, ADV categories, Create's
+                     preconditions),
      tabulated      (Batch.build / IATBatch.build under the file's options and File.Create leave it alone; ADV files:
                      build yields the stored ADV controls, createFileADV's numbers and sums),
-     json-safe      (the known findings: [keep_ok] — the kept excused fields hold their decode-time values, i.e. no
-                     Addenda98.iatCorrectedData, FileIDModifier not empty, the header constants; [catx_clean] — the
-                     CTX/ATX name heuristic does not fire),
+     json-safe      (exactly the known findings: no Addenda98 record carries iatCorrectedData; the CTX/ATX name
+                     heuristic of setBatchesFromJSON does not fire),
    FileFromJSON(json.Marshal(v)) returns a file f — with a nil error when File.Validate accepts it — such that
      write f = write v (header line under the header's own options, ADV control lines included),
      the options of f are those of v, the header of f carries them too, and every batch keeps its offset. *)
 Theorem C07_roundtrip : forall fhv bhv fv v,
   typed T_File v = true ->
-  in_domain v = true -> valid fhv bhv fv v = true -> tabulated fhv bhv fv v = true ->
-  keep_ok v = true -> catx_clean v = true ->
+  in_domain v = true -> valid fhv bhv fv v = true -> tabulated fhv bhv fv v = true -> json_safe v = true ->
   exists f, from_json fhv bhv fv [] (to_json v) = (if fv f then POk f else PInvalid f)
             /\ lines_full f = lines_full (tree_full v)
             /\ write_full f = write_full (tree_full v)
             /\ file_opts f = file_opts (tree_of_file v)
             /\ header_opts f = [file_opts (tree_of_file v)]
             /\ offsets_of f = offsets_of (tree_of_file v).
-Proof. exact roundtrip_stmt. Qed.
+Proof. exact roundtrip_final. Qed.
 Print Assumptions C07_roundtrip.
 
 (* achcli -reformat (no -validate, no -skip-validation) on the JSON form of such a file *)
 Theorem C07_achcli_roundtrip : forall fhv bhv fv v,
   typed T_File v = true ->
-  in_domain v = true -> valid fhv bhv fv v = true -> tabulated fhv bhv fv v = true ->
-  keep_ok v = true -> catx_clean v = true ->
+  in_domain v = true -> valid fhv bhv fv v = true -> tabulated fhv bhv fv v = true -> json_safe v = true ->
   exists f, achcli_reformat fhv bhv fv false [] (to_json v) = (if fv f then POk f else PInvalid f)
             /\ write_full f = write_full (tree_full v)
             /\ file_opts f = file_opts (tree_of_file v).
-Proof. exact achcli_roundtrip_stmt. Qed.
+Proof. exact achcli_roundtrip_final. Qed.
 Print Assumptions C07_achcli_roundtrip.
 
 (* Non-vacuity: a generated ADV file with two batches (8 record lines) and a file with a 10-character ImmediateOrigin
